@@ -20,7 +20,9 @@ SCANS = [None] + [f"{m}{n}" for m in "BF" for n in range(10)]
 POLS = [None, "HH", "HV", "VH", "VV"]
 TYPES = ["IMG", "LED", "VOL", "TRL"]
 SCENE = "ALOS2014410740-140829"
-CHARS = "ABCDEFGHIJKLMNOPQRSTUVWXYZ0123456789._- \n"  # incl. a line feed: `$` and `.match` differ from fullmatch exactly there
+# incl. a line feed (`$` and `.match` differ from fullmatch exactly there), non-ASCII decimal digits and letters (`\d`, `\w`,
+# str.isdigit and int() accept them), lower case, control characters
+CHARS = "ABCDEFGHIJKLMNOPQRSTUVWXYZ0123456789._- \n" + "３٣²Ａaxé\t\r\x00+/"
 
 IN, OUT, UNDECIDED = "in", "out", "undecided"
 
